@@ -8,6 +8,7 @@ import (
 	"go/ast"
 	"go/parser"
 	"go/token"
+	"regexp"
 	"strings"
 )
 
@@ -28,6 +29,9 @@ type Vector struct {
 	Src      string  `json:"src,omitempty"`      // complete Go source of the target file
 	Subjects []*Term `json:"subjects,omitempty"` // expression (or statement) terms to embed in a template
 	Tmpl     string  `json:"tmpl,omitempty"`     // template name for Subjects
+	UseSubj  bool    `json:"use_subjects,omitempty"` // take Subjects from the -subjects file
+	Stride   int     `json:"subj_stride,omitempty"`  // use every Stride-th subject ...
+	Offset   int     `json:"subj_offset,omitempty"`  // ... starting at Offset
 	Note     string  `json:"note,omitempty"`
 	Layout   string  `json:"layout,omitempty"` // minus-first (default) | plus-first | ctx
 }
@@ -58,6 +62,8 @@ func replaceDots(src string) string {
 	}
 	return sb.String()
 }
+
+var namedDotsRe = regexp.MustCompile(`(`+dotsPrefix+`\w+)(\s*[,)])`)
 
 func isIdentByte(c byte) bool {
 	return c == '_' || c >= '0' && c <= '9' || c >= 'a' && c <= 'z' || c >= 'A' && c <= 'Z'
@@ -92,6 +98,10 @@ func PatternFromText(class, text string, metas []MetaDecl) (*Term, error) {
 		t = &Term{K: "@stmts", S: []*Slot{lslot("Stmt", l)}}
 	case "gendecl", "funcdecl":
 		f, err := parser.ParseFile(token.NewFileSet(), "p.go", "package p\n"+src, 0)
+		if err != nil && strings.Contains(err.Error(), "mixed named and unnamed") {
+			// an elision in a named parameter list: give the placeholder a name
+			f, err = parser.ParseFile(token.NewFileSet(), "p.go", "package p\n"+namedDotsRe.ReplaceAllString(src, "_ $1$2"), 0)
+		}
 		if err != nil {
 			return nil, err
 		}
@@ -123,7 +133,8 @@ func holes(t *Term, metas map[string]string) *Term {
 		}
 	case "Field":
 		// Names, Type, Tag
-		if len(t.S[0].V) == 0 && t.S[1].T == "n" && t.S[2].T == "z" {
+		if (len(t.S[0].V) == 0 || len(t.S[0].V) == 1 && t.S[0].V[0].K == "Ident" && t.S[0].V[0].S[1].A == "_") &&
+			t.S[1].T == "n" && t.S[2].T == "z" {
 			if x := t.S[1].V[0]; x.K == "Ident" && strings.HasPrefix(x.S[1].A, dotsPrefix) {
 				return DotsTerm(strings.TrimPrefix(x.S[1].A, dotsPrefix))
 			}
@@ -177,26 +188,11 @@ func PatchText(v *Vector) string {
 			sb.WriteString("-" + l + "\n")
 		}
 	case "ctx":
-		// common prefix and suffix lines become context lines
-		p := 0
-		for p < len(minus) && p < len(plus) && minus[p] == plus[p] {
-			p++
-		}
-		s := 0
-		for s < len(minus)-p && s < len(plus)-p && minus[len(minus)-1-s] == plus[len(plus)-1-s] {
-			s++
-		}
-		for _, l := range minus[:p] {
-			sb.WriteString(" " + l + "\n")
-		}
-		for _, l := range minus[p : len(minus)-s] {
-			sb.WriteString("-" + l + "\n")
-		}
-		for _, l := range plus[p : len(plus)-s] {
-			sb.WriteString("+" + l + "\n")
-		}
-		for _, l := range minus[len(minus)-s:] {
-			sb.WriteString(" " + l + "\n")
+		// wrapped rendering, common lines (LCS) become context lines so that
+		// every elision on a context line keeps its (line, column) on both sides
+		minus, plus = wrappedLines(v.Class, v.Pat), wrappedLines(v.Class, v.Plus)
+		for _, l := range lcsDiff(minus, plus) {
+			sb.WriteString(l + "\n")
 		}
 	default:
 		for _, l := range minus {
@@ -207,4 +203,70 @@ func PatchText(v *Vector) string {
 		}
 	}
 	return sb.String()
+}
+
+// wrappedLines renders a call / composite literal pattern with one element
+// per line; other patterns are rendered as usual.
+func wrappedLines(class string, t *Term) []string {
+	if class == "expr" {
+		switch t.K {
+		case "CallExpr":
+			out := []string{strings.TrimSpace(Render(t.S[0].V[0])) + "("}
+			for _, a := range t.S[2].V {
+				out = append(out, "\t"+strings.TrimSpace(Render(a))+",")
+			}
+			return append(out, ")")
+		case "CompositeLit":
+			out := []string{strings.TrimSpace(Render(t.S[0].V[0])) + "{"}
+			for _, a := range t.S[2].V {
+				out = append(out, "\t"+strings.TrimSpace(Render(a))+",")
+			}
+			return append(out, "}")
+		}
+	}
+	return strings.Split(PatternText(class, t), "\n")
+}
+
+// lcsDiff returns unified-diff style lines (' ', '-', '+' prefixed).
+func lcsDiff(a, b []string) []string {
+	n, m := len(a), len(b)
+	l := make([][]int, n+1)
+	for i := range l {
+		l[i] = make([]int, m+1)
+	}
+	for i := n - 1; i >= 0; i-- {
+		for j := m - 1; j >= 0; j-- {
+			if a[i] == b[j] {
+				l[i][j] = l[i+1][j+1] + 1
+			} else if l[i+1][j] >= l[i][j+1] {
+				l[i][j] = l[i+1][j]
+			} else {
+				l[i][j] = l[i][j+1]
+			}
+		}
+	}
+	var out, pm, pp []string
+	flush := func() {
+		out = append(out, pm...)
+		out = append(out, pp...)
+		pm, pp = nil, nil
+	}
+	i, j := 0, 0
+	for i < n || j < m {
+		switch {
+		case i < n && j < m && a[i] == b[j]:
+			flush()
+			out = append(out, " "+a[i])
+			i++
+			j++
+		case i < n && (j == m || l[i+1][j] >= l[i][j+1]):
+			pm = append(pm, "-"+a[i])
+			i++
+		default:
+			pp = append(pp, "+"+b[j])
+			j++
+		}
+	}
+	flush()
+	return out
 }
